@@ -756,12 +756,16 @@ def build(reg):
     from . import packerpg
 
     specs = specs + [x for x in packerpg.add_packerpg(reg) if 'C18' in x.props]  # which two snapshots an update compares
+    from . import dirhash, hashing
+
+    hashing.add_all(reg)  # the hashing helpers as callee contracts only (verified in C19)
+    specs = specs + dirhash.add_dirhash(reg)  # the producer of the snapshots that are compared: one entry per path of the directory, empty directories included
     from . import oneliners
 
     specs = specs + oneliners.add_oneliners(reg, props=("C18",))  # one- and two-line delegations, verified against what other contracts bind them to
     return {
         "verify": specs,
         "lemmas": [("traversal-order", difforder.lemma_order)],
-        "trusted": oneliners.T_ONE + [T2_PATH, T5_MODEL, T2_PREFIXES, "DiffNode.children() yields exactly the values of the removed, modified and added dicts (itertools.chain, T2); next(gen, None) is the first element passing the filter, or None if there is none"] + difforder.T_ORDER + difforder.T_ANNOTATE + packerpg.T_PACKER,
+        "trusted": oneliners.T_ONE + [T2_PATH, T5_MODEL, T2_PREFIXES, "DiffNode.children() yields exactly the values of the removed, modified and added dicts (itertools.chain, T2); next(gen, None) is the first element passing the filter, or None if there is none"] + difforder.T_ORDER + difforder.T_ANNOTATE + packerpg.T_PACKER + hashing.TRUSTED + dirhash.T_DIR + dirhash.T_LINK,
         "assumptions": ["DirHashsums well-formedness: only dicts have entries and entries are never None; python == on snapshot values is deep equality (axiomatised as the fixpoint equation of tree_eq)", "every DiffNode is created by DiffNode.compare, so the one-level contract proved here holds for every node of the diff tree (structural induction over the recursion, argued in DESIGN); the walk of DirDiff.get is under contract step by step (that its answer agrees with the listing follows with one-node-per-path, argued in DESIGN); DiffNode.nodes is verified against the recursive shape removed / modified / itself / added (the recursive call by its own contract) and the ordering statements are lemmas over that shape; DirDiff.annotate is verified under the assumption that the diff has one node per path (DiffNode.compare puts children at parent/name with different names) — that no node repeats in nodes() (tree-shapedness of the diff) is not proved here but checked bounded"],
     }
